@@ -259,8 +259,10 @@ func (r *Receiver) RunOnce(ctx context.Context, includingOwn bool) error {
 			continue // no change
 		}
 
-		if !includingOwn && inst == r.ownInstance {
-			// Own instance. We only want these during startup.
+		if !includingOwn && inst == r.ownInstance && !r.ignoredFilenames[lastNotified.FullName] {
+			// Own instance. We only want these during startup, unless the own
+			// snapshot we notified about then turned out to be corrupt and an
+			// older one has taken its place: that one still has to be loaded.
 			continue
 		}
 
